@@ -60,8 +60,11 @@ func (k *Keystore) HasKey(ctx context.Context, id string) (bool, error) {
 			return false, errmsg.ErrKeyNotInKeystore.Wrap(err)
 		}
 
-		if storedKey != nil {
+		// the key is in the datastore but not (or no longer) in the cache
+		if value != nil {
 			k.cache.Add(id, base64.StdEncoding.EncodeToString(value))
+
+			return true, nil
 		}
 	}
 
